@@ -397,13 +397,43 @@ def check(fx, rep, tier):
         f, n = fns[g]
         lets = {(y.get('pat') or '').replace('mut ', '').strip(): y.get('init') for y in A.nodes(n['body']) if y.get('k') == 'let' and isinstance(y.get('init'), dict)}
         mp = lets.get('method_path')
+        if mp is None:
+            # any binding initialised by a format! of `{interface}.{name}` or by a helper that returns one
+            for k_, v_ in lets.items():
+                if v_.get('k') == 'macro' and '{interface_name}.' in (v_.get('fmt') or ''):
+                    mp = v_
+        if mp is not None and mp.get('k') in ('call', 'try') :
+            callee = mp if mp.get('k') == 'call' else mp.get('expr') or {}
+            hname = (callee.get('func') if isinstance(callee.get('func'), str) else A.text(callee.get('func') or {})).split('::')[-1] if callee.get('k') == 'call' else None
+            hs = [(ff, nn) for ff, nn, ii in allf if nn['name'] == hname]
+            if len(hs) == 1:
+                # the three generators share one helper that builds the path: its bindings are theirs
+                hn = hs[0][1]
+                for y in A.nodes(hn['body']):
+                    if y.get('k') == 'let' and isinstance(y.get('init'), dict):
+                        lets.setdefault((y.get('pat') or '').replace('mut ', '').strip(), y.get('init'))
+                fm = [m for m in A.nodes(hn['body']) if m.get('k') == 'macro' and m.get('name') == 'format' and '{interface_name}.' in (m.get('fmt') or '')]
+                if fm:
+                    mp = fm[-1]
         fmts[label] = (mp or {}).get('fmt') if mp and mp.get('k') == 'macro' else A.text(mp)
-        amn = A.text(lets.get('actual_method_name'))
-        conv = A.text(lets.get('converted_name'))
-        mns = A.text(lets.get('method_name_str'))
-        chains[label] = (re.sub(r'\s', '', amn), re.sub(r'\s', '', conv), 'unraw' in mns and 'to_string' in mns)
+        # follow the bindings from the interpolated name back to the identifier, whatever the locals are called
+        fm_ = fmts[label] or ''
+        mvars = re.findall(r'\{(\w+)\}', fm_)
+        name_var = mvars[-1] if len(mvars) == 2 else 'actual_method_name'
+
+        def words(node):
+            return set(re.findall(r'[A-Za-z_]\w*', A.text(node) if node is not None else ''))
+        amn_n = lets.get(name_var)
+        amn = A.text(amn_n)
+        conv_n = next((lets[w] for w in sorted(words(amn_n)) if w in lets and 'snake_case_to_pascal_case' in A.text(lets[w])), lets.get('converted_name'))
+        conv = A.text(conv_n)
+        mns_n = next((lets[w] for w in sorted(words(conv_n)) if w in lets and 'to_string' in A.text(lets[w])), lets.get('method_name_str'))
+        mns = A.text(mns_n)
+        norm_ = lambda t_: re.sub(r'\b(%s)\b' % '|'.join(sorted(set(lets) | {'x'}, key=len, reverse=True)), '_', re.sub(r'\s', '', t_))
+        chains[label] = (norm_(amn), norm_(conv), 'unraw' in mns and 'to_string' in mns)
+        fmts[label] = re.sub(r'\{%s\}' % re.escape(name_var), '{<name>}', fm_) if len(mvars) == 2 else fm_
     vals = set(fmts.values())
-    rep.check(len(vals) == 1 and None not in vals and '{interface_name}.{actual_method_name}' in vals, 'R12.3', 'method-path|format', P,
+    rep.check(len(vals) == 1 and None not in vals and '{interface_name}.{<name>}' in vals, 'R12.3', 'method-path|format', P,
               'all three generators build the method path as %s' % sorted(vals), 'the generators format the qualified method name differently: %s' % fmts)
     same_chain = len({(a, b) for a, b, c in chains.values()}) == 1 and all('rename' in a and 'unwrap_or' in a and 'snake_case_to_pascal_case' in b for a, b, c in chains.values())
     rep.check(same_chain, 'R12.3', 'method-path|name-source', P, 'name = method_attrs.rename or PascalCase(identifier) in all three generators',
